@@ -118,6 +118,9 @@ func Shrink(raw json.RawMessage) []json.RawMessage {
 			if e.Pad != 0 {
 				emit(func(c *Scenario) bool { c.Archives[ai].Entries[ei].Pad = 0; return true })
 			}
+			if e.Zero != 0 {
+				emit(func(c *Scenario) bool { c.Archives[ai].Entries[ei].Zero = 0; return true })
+			}
 			if e.Nsec != 0 {
 				emit(func(c *Scenario) bool { c.Archives[ai].Entries[ei].Nsec = 0; return true })
 			}
